@@ -6,6 +6,7 @@ import NixModel.Generated.CopyOrder
 import NixModel.Generated.PropCreateOrder
 import NixModel.Generated.RoleOrder
 import NixModel.Generated.AttrOrder
+import NixModel.Generated.TextVecOrder
 open Lean Nix.Store
 
 /-!
@@ -44,6 +45,9 @@ Additional ops:
   ["attr_run", setter, [isNone, typeOk, normOk, storesNone, isText, textStorable, hasH5Type], present]       the
         attribute setters of Pure/AttrWrite.lean run on Generated/AttrOrder.lean: setter = a name of `AttrOrder.all`;
         present: the attribute has a value; answer {"err": null | class, "attr": null | "old" | "new", "stamped": b}
+  ["textvec_run", setter, [truthOk, falsy, listLike, iterable, elemsOk, arrayOk, countOk, elemsStorable, linked], present]
+        the text-vector setters of Pure/TextVecWrite.lean run on Generated/TextVecOrder.lean: setter = a name of
+        `TextVecOrder.all`; answer {"err": null | class, "vec": null | "old" | "new" | "resized", "stamped": b}
 -/
 namespace Driver.C12
 open Driver Driver.Store
@@ -287,8 +291,23 @@ def attrRun (name : String) (flags present : Json) : Json :=
       ("stamped", Json.bool (r.1.stamp != 1))])
   | _, _ => bad "attr_run"
 
+open Nix.Guarded Nix.TextVecWrite in
+def textVecRun (name : String) (flags present : Json) : Json :=
+  match (Nix.Generated.TextVecOrder.all.find? (·.1 == name)).map (·.2), (jArr flags).toList with
+  | some st, [t, fa, ll, it, eo, ao, co, es, lk] =>
+    let a : Arg := ⟨jBool t, jBool fa, jBool ll, jBool it, jBool eo, jBool ao, jBool co, jBool es, jBool lk, 7, 5⟩
+    let r := Nix.TextVecWrite.runSetter st a ⟨if jBool present then some 3 else none, 1⟩
+    ok (Json.mkObj [
+      ("err", match r.2 with | none => Json.null | some e => Json.str e.toString),
+      ("vec", match r.1.vec with
+        | none => Json.null
+        | some t => Json.str (if t == 3 then "old" else if t == 0 then "resized" else "new")),
+      ("stamped", Json.bool (r.1.stamp != 1))])
+  | _, _ => bad "textvec_run"
+
 def step (g : Graph) (j : Json) : Graph × Json :=
   match (jArr j).toList with
+  | [.str "textvec_run", .str name, flags, present] => (g, textVecRun name flags present)
   | [.str "attr_run", .str name, flags, present] => (g, attrRun name flags present)
   | [.str "role_run", .str name, .str kind, .str place, idf, tg, linked, tf] => (g, roleRun name kind place idf tg linked tf)
   | [.str "propcreate_run", flags] => (g, propCreateRun flags)
